@@ -166,6 +166,10 @@ def c19_c(ctx: Ctx):
     out = []
     for q in (LOC, GP, GJ, "signac._config:_get_project_config_fn"):
         f = ctx.fn(q)
+        mt = [c for c in body_nodes(f) if isinstance(c, ast.Call) and common.ext_name(ctx, f, c) in ("os.path.ismount",)]
+        if mt:
+            out.append(ctx.viol(R, f, mt[0], "the upward search stops at mount points: a project whose workspace or data directory lies on another volume (bind mount, scratch file system) is not "
+                                "found from inside it, get_project / get_job raise LookupError"))
         rp = [c for c in body_nodes(f) if isinstance(c, ast.Call) and common.ext_name(ctx, f, c) in ("os.path.realpath", "os.readlink", "pathlib.Path.resolve")]
         if rp:
             out.append(ctx.viol(R, f, rp[0], f"{canon(rp[0])[:50]} resolves symbolic links during discovery: a job directory symlinked into project B's workspace resolves to the project "
@@ -188,6 +192,15 @@ def c19_c(ctx: Ctx):
             out.append(ctx.inc(R, f, first, "upward search loop not recognised"))
     else:
         out.append(ctx.inc(R, f, f.node, "no upward search loop"))
+    mi = ctx.prog.funcs.get("signac.__main__:main_init")
+    if mi is not None:
+        gp = [c for c in body_nodes(mi) if isinstance(c, ast.Call) and (GP in common.targets_of(ctx, mi, c) or "signac.project:get_project" in common.targets_of(ctx, mi, c))]
+        bad = [c for c in gp if ctx.fold(kwarg(c, "search"), mi) is not False]
+        if bad:
+            out.append(ctx.viol(R, mi, bad[0], "`signac init` first looks for a project with an upward search: inside a sub-directory or job directory of an existing project it finds the enclosing "
+                                "project and initialises nothing, so no nested project is created", construct="cli|main_init"))
+        else:
+            out.append(ctx.ok(R, mi, mi.node, "`signac init` initialises the given directory itself (no upward search first)", construct="cli|main_init", nontrivial=False))
     g = ctx.fn(GP)
     loc = [c for c in body_nodes(g) if isinstance(c, ast.Call) and LOC in common.targets_of(ctx, g, c)]
     for c in loc:
